@@ -98,7 +98,7 @@ def r2(run, ctx):
                 c.module.name.startswith('circus.commands'):
             validators.append(c.methods['validate'])
     validators.append(ctx.fn('circus.commands.util:validate_option'))
-    run.count('R2', len(validators), 5, 'validators')
+    run.count('R2', len(validators), 3, 'validators')
     for v in validators:
         params = [a.arg for a in v.node.args.args]
         run.check('R2', 'arbiter' not in params and 'watcher' not in params,
@@ -189,7 +189,7 @@ def r3(run, ctx):
                       "'%s' can refuse the request (%s) after it has already changed state (%s)"
                       % (nm, norm_text(bad[1].ast)[:60] if bad else '',
                          norm_text(bad[0].ast)[:60] if bad else ''))
-    run.count('R3', n, 20, 'command execute bodies')
+    run.count('R3', n, 15, 'command execute bodies')
     # Arbiter.add_watcher: refusal and construction precede both directory writes
     f = ctx.fn(A + 'add_watcher')
     cfg = ctx.cfg(f)
@@ -255,7 +255,7 @@ def r4(run, ctx):
         for x, what in mutator_nodes(ctx, e):
             run.check('R4', cfg.dominates(first, x), "'%s' has no direct effect before its first "
                       "exclusive call" % nm, e, x.ast)
-    run.count('R4', n, 8, 'state-changing commands using the exclusive slot')
+    run.count('R4', n, 5, 'state-changing commands using the exclusive slot')
 
 
 # -- R5 -----------------------------------------------------------------------
@@ -343,7 +343,7 @@ def r5(run, ctx):
     chain = _chain(so.node, lambda st: True)
     if len(chain) < 10:
         raise AnalysisError('C11 R5: cannot read the key chain of Watcher.set_opt')
-    run.count('R5', len(chain), 15, 'set_opt key branches')
+    run.count('R5', len(chain), 10, 'set_opt key branches')
     run.extra['validated_types'] = {k: sorted(v) for k, v in types.items()}
     for keys, prefixes, body, test in chain:
         label = '/'.join(keys + [p + '*' for p in prefixes]) or norm_text(test)[:30]
